@@ -6,7 +6,7 @@ from verifkit.props import C08 as base
 ID = "C10"
 THM_MODULES = ["Minicbor.Thm.C10"]
 P = "Minicbor.C10."
-REQUIRED = [P + n for n in """compat_counterexample_K5 compat_decode_statement_false k5_benign_excludes compat_F5_repaired
+REQUIRED = [P + n for n in """compat_K5_repaired bare_null_needs_nil compat_decode_full compat_decode_full_exists compat_F5_repaired
 compat_not_transitive compat_missing_mandatory compat_missing_mandatory_example compat_decode_fields compat_decode_struct_partial
 compat_add_optional_field compat_drop_field compat_unknown_variant_swallowed compat_unknown_variant_keeps_siblings
 compat_unknown_variant_error compat_refl compatFields_refl compatVars_refl compatible_refl step_compatible_field
@@ -18,7 +18,8 @@ REQUIRED += ["Minicbor.Derive." + n for n in """fieldsDec_compat fieldsDec_same 
 stepH_piece stepH_gap dec_null_nil
 body_compat row_compat row_proj tyC_struct tyC_enum tyC_vec tyC_option_some tyC_transparent tyC_fieldBlob itemC_of_tyC
 spec_valid specFields_valid specVars_valid skip_encTy skip_frame skip_piece assemble_total fieldsFit_of_frame
-stepC_piece stepC_gap reader_val_eq projFields_find assemble_ok""".split()]
+stepC_piece stepC_gap reader_val_eq projFields_find assemble_ok
+benign_always benignP_always action_bare_null action_of_not_bare bareNull_tagBytes""".split()]
 PACKAGES = ["dgen"]
 on_build_failure = base.on_build_failure
 def prepare(seed, tier):
@@ -33,8 +34,8 @@ RULE = ("dcompat <writer type> <value> <reader type>: chains of type versions pr
         "65536 and 2^32-1 while the older version's indices stay small, with writer values that use every variant / set every new field) on random base structs (array and map encoding, regular and index_only enums, tagged fields, nil-aware codec, "
         "nested structs / enums / collections); every ordered pair of versions of a chain (both directions) x every generated value of the writer "
         "version.  Oracle: the documented projection computed by the Lean `project` (shared fields equal, reader-only optionals nil, writer-only fields "
-        "ignored, unknown variant in an optional field None), position = length of the writer's encoding.  Recorded defects are recognised by the "
-        "model's hazard classification (K5: tagged reader-only optional at a gap of the writer's array) and only then; F5 (unknown index_only variant swallowing the sibling) was repaired in /repo (34b49ef) and is a violation again if it reappears.")
+        "ignored, unknown variant in an optional field None), position = length of the writer's encoding.  Both recorded defects were repaired in /repo and are violations again if they "
+        "reappear: F5 (unknown index_only variant swallowing the sibling; 34b49ef) and K5 (a tagged reader-only optional field at a gap of the writer's array rejected the bare null there).")
 ASSUMPTIONS = list(base.ASSUMPTIONS) + [
     "compatibility is checked for version pairs reachable by edit sequences that never re-use a retired index with another type; the documentation "
     "does not state that restriction, without it the promise is false (machine-checked: C10.compat_not_transitive)"]
@@ -53,8 +54,7 @@ def judge(op, impl, model, spec):
     want = " ".join(sw[:4])
     if impl == want:
         return "ok" if impl == model else "corr"
-    # the implementation breaks the documented promise on this input
-    if impl == model and sw[4] == "k5": return ("known", "K5")
+    # the implementation breaks the documented promise on this input (K5 was such an input until its repair; no exception is left)
     return "violation"
 
 
